@@ -4,6 +4,7 @@ M=${MREPO:-/tmp/mrepo}
 P=/verif/seeded/$1/patch.diff; [ -f /verif/seeded/$1/patch_rebased.diff ] && P=/verif/seeded/$1/patch_rebased.diff
 cd "$M" && { git apply $P 2>/dev/null || git apply -3 $P; } || exit 2
 cd /verif
+export VERIF_EVIDENCE_DIR=/tmp/evidence_scratch
 VERIF_REPO=$M ./check $2 --tier ${3:-quick} | grep -v "^KNOWN" | tail -2 | cut -c1-250
 python3 -c "
 import json; r=json.load(open('/verif/replays/$2-${VERIF_SEED:-0}-0.json')); print(r['kind'], str(r['what'])[:500]); print('history', len(r.get('case',{}).get('x',{}).get('history',[])), 'standalone', r.get('standalone_reproduces'))"
